@@ -129,7 +129,7 @@ def operands(f: dict, tier: str, seed: int) -> list[tuple]:
     """operand tuples (a, b); literal operands are filled in; unary forms have b = None"""
     rng = random.Random(f"{seed}:{f['key']}")
     quick = tier == "quick"
-    nrand = {"bin": (8, 200), "aug": (6, 60), "lit_r": (4, 30), "lit_l": (4, 30), "un": (8, 100), "if": (2, 20),
+    nrand = {"bin": (8, 120), "aug": (6, 60), "lit_r": (4, 30), "lit_l": (4, 30), "un": (8, 100), "if": (2, 20),
              "ifnot": (2, 20), "call": (12, 120), "call_lit": (4, 30)}[f["style"]][0 if quick else 1]
     ta, tb, op = f["ta"], f["tb"], f["op"]
     if tb == "none":
@@ -149,8 +149,10 @@ def operands(f: dict, tier: str, seed: int) -> list[tuple]:
         return [(f["lit"], b) for b in Bv] + [(f["lit"], nv.rand_value(tb, rng)) for _ in range(nrand)]
     A = operand_values(ta, "a", op, tier, rng)
     Bv = operand_values(tb, "b", op, tier, rng)
-    if f["style"] == "aug" and quick:
-        A, Bv = A[:5], Bv[:5]
+    if f["style"] == "aug":
+        A, Bv = (A[:5], Bv[:5]) if quick else (A[:12], Bv[:10])
+    elif not quick and op not in ("<<", ">>", "**", "pow"):
+        Bv = Bv[:16]          # all anchors on the left x (core + 8 more) on the right
     pairs = [(a, b) for a in A for b in Bv]
     if ta != "bool":
         for _ in range(nrand):
